@@ -1,6 +1,6 @@
 """C06 implicit integrators: Implicit.tla model checked exactly (theta/xi step with exact linear solve, FD Jacobian,
 gear start-up, defining relations); the real integrators are bound on operators taken from the code's own rhs."""
-import os, random, sys
+import math, os, random, sys
 from fractions import Fraction
 import numpy as np
 from . import core, fd
@@ -55,7 +55,13 @@ def lin_cases(rep, rnd, tier):
         f0 = fd.field.fdata(model, m, [q0])
         A, bvec = operator_matrix(rhs, f0, n)
         cfl = rnd.choice([0.01, 0.1, 0.5, 1.0, 3.0, 10.0, 100.0])
-        dt = float(np.min(rhs.calc_timestep(f0, cfl)))
+        dtarr = np.asarray(rhs.calc_timestep(f0, cfl), dtype=float)
+        dt = float(np.min(dtarr))
+        # one case in three: the per-cell step array of the local-time-step directive. Each cell's equation then carries its own
+        # step: with D = diag(dt) the steps solve (I - D A) Q+ = Q + D b etc., and the time advances by min(dt)
+        local = (c % 3 == 2)
+        Dm = np.diag(dtarr) if local else dt * np.eye(n)
+        dtmax = float(np.max(dtarr)) if local else dt
         cn = rnd.choice(list(SCHEMES))
         solver = getattr(fd.tnum, cn)(m, rhs)
         I = np.eye(n)
@@ -65,24 +71,24 @@ def lin_cases(rep, rnd, tier):
         for s in range(nsteps):
             Qo = f.data[0].copy()
             t_before = f.time
-            solver.step(f, dt)
+            solver.step(f, dtarr.copy() if local else dt)
             Qn = f.data[0].copy()
             sch = SCHEMES[cn]
             if sch == "implicit":
-                rr = relres(I - dt * A, Qn, I, Qo, A, dt, src=dt * bvec)
+                rr = relres(I - Dm @ A, Qn, I, Qo, A, dtmax, src=Dm @ bvec)
                 name = "implicit"
             elif sch == "cn" or (sch == "gear" and s == 0):
-                rr = relres(I - 0.5 * dt * A, Qn, I + 0.5 * dt * A, Qo, A, dt, src=dt * bvec)
+                rr = relres(I - 0.5 * Dm @ A, Qn, I + 0.5 * Dm @ A, Qo, A, dtmax, src=Dm @ bvec)
                 name = "cn" if sch == "cn" else "gear_start"
             else:
-                r = 3 * Qn - 4 * Qo + Qm - 2 * dt * (A @ Qn + bvec)
-                scale = (max(np.max(np.abs(Qo)), np.max(np.abs(Qm))) + np.max(np.abs(bvec)) * dt) * (1.0 + dt * np.max(np.sum(np.abs(A), axis=1)))
+                r = 3 * Qn - 4 * Qo + Qm - 2 * Dm @ (A @ Qn + bvec)
+                scale = (max(np.max(np.abs(Qo)), np.max(np.abs(Qm))) + np.max(np.abs(bvec)) * dtmax) * (1.0 + dtmax * np.max(np.sum(np.abs(A), axis=1)))
                 rr = core.ulps(float(np.max(np.abs(r))), 0.0, float(scale))
                 name = "bdf2"
             rec = dict(kind="lin", scheme=name, relres=rr, tadv=core.ulps(f.time, t_before + dt, max(abs(f.time), dt)),
-                       cls=cn, n=n, mesh=mk, recon=rname, cfl=cfl, a=a, step=s + 1, bc=bctype)
+                       cls=cn, n=n, mesh=mk, recon=rname, cfl=cfl, a=a, step=s + 1, bc=bctype, dtlocal=1 if local else 0)
             recs.append(rec)
-            rep.nontrivial.add(("lin", cn, n, mk, rname, cfl, a, bctype))
+            rep.nontrivial.add(("lin", cn, n, mk, rname, cfl, a, bctype, local))
             Qm = Qo
     return recs
 
@@ -177,25 +183,46 @@ def jac_cases(rep, rnd, tier):
             p = 1.0 + 0.1 * np.sin(2 * np.pi * x + 1.0)
             f = rhs.fdata_fromprim([rho, u, p])
         solver = fd.tnum.implicit(m, rhs)
-        J = solver.calc_jacobian(f)
+        J = np.array(solver.calc_jacobian(f), dtype=float)
         neq = f.neq
-        v = [np.array([rnd.uniform(-1, 1) for _ in range(n)]) * float(np.mean(np.abs(q)) + 1e-3) for q in f.data]
-        vflat = np.zeros(neq * n)
-        for q in range(neq):
-            vflat[q::neq] = v[q]
-        Jv = J @ vflat
-        hstep = 1e-5
-        fp, fm = f.copy(), f.copy()
-        for q in range(neq):
-            fp.data[q] = f.data[q] + hstep * v[q]
-            fm.data[q] = f.data[q] - hstep * v[q]
-        Rp = [r.copy() for r in rhs.rhs(fp)]
-        Rm = [r.copy() for r in rhs.rhs(fm)]
-        cd = np.zeros(neq * n)
-        for q in range(neq):
-            cd[q::neq] = (Rp[q] - Rm[q]) / (2 * hstep)
-        scale = float(np.max(np.abs(cd))) if np.max(np.abs(cd)) > 0 else 1.0
-        err = core.ulps(float(np.max(np.abs(Jv - cd))), 0.0, scale) if np.all(np.isfinite(Jv)) else core.ULP_CAP
+        # entrywise against difference quotients of the space operator at h = 1e-7 mean|q|. The code's Jacobian is a FORWARD
+        # difference with the perturbation eps_q = sqrt(macheps) * mean|q| the property names: its legitimate error is
+        # eps_q/2 |d2R/dq2| (truncation) + macheps |R| / eps_q (cancellation); both are measured here and allowed (x2 / x16), nothing
+        # else is. Riemann fluxes are only piecewise smooth (min/max wave speeds): an entry is accepted when it agrees with the central,
+        # the forward or the backward quotient, so a kink of the operator inside (x-h, x+h) -- where "the derivative" is one-sided --
+        # raises no alarm (seen: a kink at relative distance 3e-6 made a central difference at h = 1e-5 wrong by 4e-5)
+        R0 = [r.copy() for r in rhs.rhs(f)]
+        rmax = max(float(np.max(np.abs(r))) for r in R0)
+        u = float(np.spacing(1.0))
+        cands = [np.zeros_like(J) for _ in range(3)]
+        allows = [np.zeros_like(J) for _ in range(3)]
+
+        def R_at(q, i, d):
+            g = f.copy()
+            g.data[q][i] += d
+            return [r.copy() for r in rhs.rhs(g)]
+        for i in range(n):
+            for q in range(neq):
+                mq = float(np.sum(np.abs(f.data[q])) / n) or 1.0
+                h, h2 = 1e-7 * mq, 1e-4 * mq
+                epsq = math.sqrt(u) * mq
+                Rp, Rm, Rp2, Rm2 = R_at(q, i, h), R_at(q, i, -h), R_at(q, i, h2), R_at(q, i, -h2)
+                for qq in range(neq):
+                    col = i * neq + q
+                    curv = np.abs(Rp2[qq] - 2 * R0[qq] + Rm2[qq]) / h2 ** 2
+                    own = 2 * (0.5 * epsq * curv) + 16 * u * rmax / epsq + 8 * u * rmax / h
+                    cands[0][qq::neq, col] = (Rp[qq] - Rm[qq]) / (2 * h)
+                    cands[1][qq::neq, col] = (Rp[qq] - R0[qq]) / h
+                    cands[2][qq::neq, col] = (R0[qq] - Rm[qq]) / h
+                    allows[0][qq::neq, col] = own
+                    allows[1][qq::neq, col] = own + h * curv
+                    allows[2][qq::neq, col] = own + h * curv
+        scale = float(np.max(np.abs(cands[0]))) if np.max(np.abs(cands[0])) > 0 else 1.0
+        if np.all(np.isfinite(J)) and J.shape == cands[0].shape:
+            exc = np.minimum.reduce([np.maximum(np.abs(J - D) - al - 1e-9 * scale, 0.0) for D, al in zip(cands, allows)])
+            err = core.ulps(float(np.max(exc)), 0.0, scale)
+        else:
+            err = core.ULP_CAP
         recs.append(dict(kind="jac", jacerr=err, model=which, recon=rname, n=n))
         rep.nontrivial.add(("jac", which, rname, n, c))
     return recs
